@@ -40,6 +40,66 @@ let tri_of flag (s : string) = match s with
 
 let babe = bytes_of_string "BABE"
 
+let rec but_last = function [] -> [] | [_] -> [] | x :: r -> x :: but_last r
+
+(* one verified block: configuration, digest layout (as the model sees it), equivocation stub mode
+   and the observable fields; returns (prop, model_eq, finding, tags, detail) *)
+let eval_block allowed n rseed digest_of eq cls same pre key below vrf seal =
+  let pre = field "pre" pre and key = field "key" key and below = field "below" below
+  and vrf = field "vrf" vrf and seal = field "seal" seal in
+  let data = if pre = "-" || pre = "e" then [] else bytes_of_hex pre in
+  let digest = digest_of (PreRuntime (babe, data)) in
+  let c = { n_auth = n_of_hex n; allowed = n_of_hex allowed;
+            randomness = rng_bytes (Int64.of_string ("0x" ^ rseed)) 32 } in
+  let claimed = (match decode_predigest data with Some d -> Some (pd_idx d) | None -> None) in
+  let mismatch = ref false in
+  let for_claimed i v = if Some i = claimed then v () else (mismatch := true; E) in
+  let key_valid i = if Some i = claimed then (match key with "1" -> true | "0" -> false | _ -> mismatch := true; false)
+                    else (mismatch := true; false) in
+  let below_o i _ _ = for_claimed i (fun () -> tri_of mismatch below) in
+  let vrf_o i _ _ _ = for_claimed i (fun () -> tri_of mismatch vrf) in
+  (* the harness evaluated the seal over the header without its LAST digest item: the model must
+     ask for exactly that pre-image *)
+  let seal_o i _ dg _ = if dg <> but_last digest then (mismatch := true; E)
+                        else for_claimed i (fun () -> tri_of mismatch seal) in
+  let equiv_o _ _ = (match eq with "0" -> F | "2" -> T | _ -> E) in
+  let h = { h_rest = (); h_digest = digest } in
+  let m = class_of (verify key_valid below_o vrf_o seal_o equiv_o c h) in
+  let mm1 = !mismatch in
+  let mp = class_of (verify_prefix key_valid below_o vrf_o seal_o equiv_o c h) in
+  mismatch := false;
+  let auth = authorised_b key_valid below_o vrf_o seal_o equiv_o c h in
+  let mm2 = !mismatch in
+  (* property predicate on the implementation's observable: passes <-> authorised.
+     SecondarySlots > 2 is not one of the property's configurations: only the correspondence
+     is checked there *)
+  let in_scope = (allowed = "0" || allowed = "1" || allowed = "2") in
+  let prop = (not in_scope || (cls = "ok") = auth) && same = "1" && not mm2 in
+  (* guard of the finding: a well-formed secondary claim of the kind the configuration does not
+     name.  Inside the guard a REJECTION may carry either the repaired code's error class
+     (ErrBadSlotClaim) or the one the pinned code reaches later; an ACCEPTANCE there is the
+     finding secondary-kind-not-checked (fixes/C24-secondary-kind.patch repairs it). *)
+  let wrong = wrong_kind c digest in
+  let eq_ = (m = cls || (wrong && cls <> "ok" && mp = cls)) && same = "1" && not mm1 in
+  let finding = if not prop && wrong && in_scope && cls = "ok" && mp = cls then "secondary-kind-not-checked" else "-" in
+  let kind = (match decode_predigest data with
+    | Some (Primary _) -> "primary" | Some (SecPlain _) -> "plain" | Some (SecVRF _) -> "vrf" | None -> "undecodable") in
+  let tags = ["class-" ^ m; "kind-" ^ kind; "allowed-" ^ allowed] @
+             (if wrong then ["wrong-kind"] else []) @ (if auth then ["authorised"] else []) in
+  let detail = if prop && eq_ then "" else
+      Printf.sprintf "go=%s model=%s prefix-model=%s authorised=%b%s" cls m mp auth (if mm1 || mm2 then " ORACLE-MISMATCH" else "") in
+  (prop, eq_, in_scope, finding, tags, detail)
+
+let rec chunks6 = function
+  | a :: b :: c :: d :: e :: f :: r -> (a, b, c, d, e, f) :: chunks6 r
+  | [] -> []
+  | _ -> fail "C24: bad seq steps"
+
+let rec split_on_semi acc cur = function
+  | [] -> List.rev (List.rev cur :: acc)
+  | ";" :: r -> split_on_semi (List.rev cur :: acc) [] r
+  | x :: r -> split_on_semi acc (x :: cur) r
+
 let check inp obs =
   let f = split_ws inp and o = split_ws obs in
   match f with
@@ -47,54 +107,48 @@ let check inp obs =
      _sealt; _cut; eq] ->
     (match o with
      | [cls; same; pre; key; below; vrf; seal] ->
-       let pre = field "pre" pre and key = field "key" key and below = field "below" below
-       and vrf = field "vrf" vrf and seal = field "seal" seal in
-       let data = if pre = "-" || pre = "e" then [] else bytes_of_hex pre in
-       let prei = PreRuntime (babe, data) in
-       let cons = Consensus (babe, []) and sl = Seal (babe, []) and pre2 = PreRuntime (bytes_of_string "aura", []) in
-       let digest = (match int_of_string ("0x" ^ shape) with
+       let cons = Consensus (babe, []) and sl = Seal (babe, []) and pre2 = PreRuntime (bytes_of_string "aura", [])
+       and fseal = Seal (bytes_of_string "aura", []) in
+       let shape = int_of_string ("0x" ^ shape) in
+       let digest_of prei = (match shape with
          | 0 -> [prei; sl] | 1 -> [prei; cons; sl] | 2 -> [prei] | 3 -> [sl; PreRuntime (babe, [])]
          | 4 -> [prei; sl; cons] | 5 -> [] | 6 -> [cons; PreRuntime (babe, []); sl] | 7 -> [prei; pre2; sl]
+         | 8 -> [prei; fseal; sl] | 9 -> [prei; RuntimeEnvUpdated; sl]
+         | 10 -> [prei; cons; fseal; RuntimeEnvUpdated; sl]
          | _ -> fail "C24: bad shape") in
-       let c = { n_auth = n_of_hex n; allowed = n_of_hex allowed;
-                 randomness = rng_bytes (Int64.of_string ("0x" ^ rseed)) 32 } in
-       let claimed = (match decode_predigest data with Some d -> Some (pd_idx d) | None -> None) in
-       let mismatch = ref false in
-       let for_claimed i v = if Some i = claimed then v () else (mismatch := true; E) in
-       let key_valid i = if Some i = claimed then (match key with "1" -> true | "0" -> false | _ -> mismatch := true; false)
-                         else (mismatch := true; false) in
-       let below_o i _ _ = for_claimed i (fun () -> tri_of mismatch below) in
-       let vrf_o i _ _ _ = for_claimed i (fun () -> tri_of mismatch vrf) in
-       let seal_o i _ _ _ = for_claimed i (fun () -> tri_of mismatch seal) in
-       let equiv_o _ _ = (match eq with "0" -> F | "2" -> T | _ -> E) in
-       let h = { h_rest = (); h_digest = digest } in
-       let m = class_of (verify key_valid below_o vrf_o seal_o equiv_o c h) in
-       let mm1 = !mismatch in
-       let mp = class_of (verify_prefix key_valid below_o vrf_o seal_o equiv_o c h) in
-       mismatch := false;
-       let auth = authorised_b key_valid below_o vrf_o seal_o equiv_o c h in
-       let mm2 = !mismatch in
-       (* property predicate on the implementation's observable: passes <-> authorised *)
-       (* SecondarySlots > 2 is not one of the property's configurations: only the correspondence
-          is checked there *)
-       let in_scope = (allowed = "0" || allowed = "1" || allowed = "2") in
-       let prop = (not in_scope || (cls = "ok") = auth) && same = "1" && not mm2 in
-       (* guard of the finding: a well-formed secondary claim of the kind the configuration does not
-          name.  Inside the guard a REJECTION may carry either the repaired code's error class
-          (ErrBadSlotClaim) or the one the pinned code reaches later; an ACCEPTANCE there is the
-          finding secondary-kind-not-checked (fixes/C24-secondary-kind.patch repairs it). *)
-       let wrong = wrong_kind c digest in
-       let eq_ = (m = cls || (wrong && cls <> "ok" && mp = cls)) && same = "1" && not mm1 in
-       let finding = if not prop && wrong && in_scope && cls = "ok" && mp = cls then "secondary-kind-not-checked" else "-" in
-       let wrong_kind = wrong in
-       let kind = (match decode_predigest data with
-         | Some (Primary _) -> "primary" | Some (SecPlain _) -> "plain" | Some (SecVRF _) -> "vrf" | None -> "undecodable") in
+       let (prop, eq_, in_scope, finding, tags, detail) =
+         eval_block allowed n rseed digest_of eq cls same pre key below vrf seal in
        { prop_ok = prop; model_eq = eq_; nontrivial = in_scope; finding;
-         tags = String.concat "," (["class-" ^ m; "kind-" ^ kind; "allowed-" ^ allowed] @
-                                   (if wrong_kind then ["wrong-kind"] else []) @ (if auth then ["authorised"] else []));
-         detail = if prop && eq_ then "" else
-             Printf.sprintf "model=%s prefix-model=%s authorised=%b%s" m mp auth (if mm1 || mm2 then " ORACLE-MISMATCH" else "") }
+         tags = String.concat "," (tags @ (if shape >= 8 then ["extra-items-before-seal"] else [])); detail }
      | _ -> { (ok ()) with model_eq = false; prop_ok = false; detail = "shape: " ^ obs })
+  | "seq" :: _epoch :: aA :: nA :: _ :: _ :: rA :: _kA :: aB :: nB :: _ :: _ :: rB :: _kB :: steps ->
+    (* every block is judged by the epoch data of ITS OWN fork, whatever the manager verified before *)
+    let steps = chunks6 steps in
+    let outs = split_on_semi [] [] o in
+    if List.length steps <> List.length outs then
+      { (ok ()) with model_eq = false; prop_ok = false; detail = "shape: " ^ obs }
+    else begin
+      let sl = Seal (babe, []) in
+      let results = List.map2 (fun (op, fork, _sfork, _tag, _idx, _slot) out ->
+          let second = (int_of_string ("0x" ^ fork)) mod 2 = 1 in
+          let (allowed, n, rseed) = if second then (aB, nB, rB) else (aA, nA, rA) in
+          match op, out with
+          | "1", ["sd"] -> None
+          | "0", [cls; same; pre; key; below; vrf; seal] ->
+            Some (eval_block allowed n rseed (fun prei -> [prei; sl]) "0" cls same pre key below vrf seal)
+          | _ -> fail "C24: bad seq observable %s" obs) steps outs in
+      let blocks = List.filter_map (fun x -> x) results in
+      let prop = List.for_all (fun (p, _, _, _, _, _) -> p) blocks
+      and eq_ = List.for_all (fun (_, e, _, _, _, _) -> e) blocks in
+      let finding = (match List.filter (fun (_, _, _, fd, _, _) -> fd <> "-") blocks with
+          | (_, _, _, fd, _, _) :: _ when List.for_all (fun (p, e, _, fd', _, _) -> (p && e) || fd' <> "-") blocks -> fd
+          | _ -> "-") in
+      let n_ok = List.length (List.filter (fun (_, _, _, _, tags, _) -> List.mem "class-ok" tags) blocks) in
+      { prop_ok = prop; model_eq = eq_; nontrivial = true; finding;
+        tags = Printf.sprintf "seq,seq-accepted-%d" (min n_ok 3);
+        detail = if prop && eq_ then "" else
+            String.concat " | " (List.mapi (fun i (p, e, _, _, _, d) -> if p && e then Printf.sprintf "step%d ok" i else Printf.sprintf "step%d %s" i d) blocks) }
+    end
   | ["claim"; allowed; n; _c1; _c2; _epoch; slot; rseed; _kseed; me] ->
     (match o with
      | [kind; vcls; below; pre] ->
